@@ -165,7 +165,7 @@ def units(tier):
     return u
 
 
-BUDGET = {"quick": 200, "thorough": 2400}
+BUDGET = {"quick": 200, "thorough": 1200}
 UNIT_PATH_CAP = {"quick": 20000, "thorough": 400000}
 BOUNDS = {
     "quick": "every identifier [A-Za-z_][A-Za-z0-9_]* of length 1..4 (each character symbolic: 63**4 strings decided through character-class forks and "
